@@ -148,11 +148,24 @@ Proof. apply free_k_spec. Qed.
    refers to it *)
 Definition rinv (st : rf) : Prop :=
   (rf_exists st = true -> rf_pos st = zlen (rf_cur st) /\ rf_fd st = FdAtPath) /\
-  (rf_exists st = false -> rf_cur st = []).
+  (rf_exists st = false -> rf_cur st = []) /\
+  rf_namelen st <= 200.            (* every rotated name can be created *)
 
 (* inside Write after the Stat/reopen step *)
 Definition winv (st : rf) : Prop :=
-  rf_exists st = true /\ rf_pos st = zlen (rf_cur st) /\ rf_fd st = FdAtPath.
+  rf_exists st = true /\ rf_pos st = zlen (rf_cur st) /\ rf_fd st = FdAtPath /\ rf_namelen st <= 200.
+
+Lemma dlen_le fuel : forall k, 0 <= dlen fuel k <= Z.of_nat fuel.
+Proof.
+  induction fuel as [|f IH]; intros k; cbn [dlen]; [lia|]. destruct (k <? 10)%N; [lia|].
+  specialize (IH (k / 10)%N). lia.
+Qed.
+
+Lemma can_rotate_short s st : rf_namelen st <= 200 -> can_rotate s st = true.
+Proof.
+  intros H. unfold can_rotate, klen. pose proof (dlen_le 39 (free_k s (rf_rot st))).
+  destruct (_ =? 0)%N; lia.
+Qed.
 
 (* Write through a descriptor that refers to the file at <path> *)
 Definition putp (st : rf) (b : bytes) : rf :=
@@ -198,7 +211,8 @@ Record write_post (clk : nat -> N) (i : nat) (st st' : rf) (p : bytes) (hs : lis
   wp_secs : map h_sec hs = map clk (seq i (length hs));
   wp_nodup : NoDup (map fst (rf_rot st)) -> NoDup (map fst (rf_rot st'));
   wp_dir : rf_dir st' = rf_dir st;
-  wp_lost : rf_lost st' = rf_lost st
+  wp_lost : rf_lost st' = rf_lost st;
+  wp_name : rf_namelen st' = rf_namelen st
 }.
 
 Lemma NoDup_snoc {A} (l : list A) x : NoDup l -> ~ In x l -> NoDup (l ++ [x]).
@@ -231,8 +245,8 @@ Lemma final_post clk i st p :
   (rf_pos st + zlen p <= rf_max st \/ (rf_cur st = [] /\ ~ In NL p)) ->
   write_post clk i st (set_pos (putp st p) (rf_pos st + zlen p)) p [].
 Proof.
-  intros (Hex & Hpos & Hfd) Hc. constructor; cbn; auto.
-  - unfold winv. cbn. rewrite zlen_app. split; [exact Hex|]. split; [lia|exact Hfd].
+  intros (Hex & Hpos & Hfd & Hnm) Hc. constructor; cbn; auto.
+  - unfold winv. cbn. rewrite zlen_app. split; [exact Hex|]. split; [lia|]. split; [exact Hfd|exact Hnm].
   - rewrite app_nil_r. reflexivity.
   - rewrite app_nil_r. reflexivity.
   - intros _. split; [constructor|]. destruct Hc as [Hc|[Hc Hn]].
@@ -245,7 +259,7 @@ Qed.
 Lemma post_cons clk i st st0 st' a sk kd p1 hs p :
   rf_max st0 = rf_max st -> rf_moved st0 = rf_moved st -> rf_gone st0 = rf_gone st ->
   rf_hist st0 = rf_hist st -> rf_rot st0 = rf_rot st -> rf_cur st0 = rf_cur st ++ a ->
-  rf_dir st0 = rf_dir st -> rf_lost st0 = rf_lost st ->
+  rf_dir st0 = rf_dir st -> rf_lost st0 = rf_lost st -> rf_namelen st0 = rf_namelen st ->
   p = a ++ sk ++ p1 ->
   (fits (rf_max st) (rf_cur st) -> fits (rf_max st) (rf_cur st ++ a)) ->
   (aligned (rf_cur st) -> ent_fine (mkH (clk i) (free_k (clk i) (rf_rot st)) (rf_cur st ++ a) sk kd)) ->
@@ -254,10 +268,10 @@ Lemma post_cons clk i st st0 st' a sk kd p1 hs p :
   write_post clk (S i) (rotate (clk i) sk kd st0) st' p1 hs ->
   write_post clk i st st' p (mkH (clk i) (free_k (clk i) (rf_rot st)) (rf_cur st ++ a) sk kd :: hs).
 Proof.
-  intros Em Emv Eg Eh Er Ec Ed El Ep Hfit Hfine Hkd Hsk Hp. destruct Hp.
-  unfold rf_dir, rf_lost in *.
-  cbn [rotate rf_max rf_moved rf_gone rf_hist rf_rot rf_cur rf_env fd_at_path e_dir e_lost] in *.
-  unfold rf_dir, rf_lost in *.
+  intros Em Emv Eg Eh Er Ec Ed El En Ep Hfit Hfine Hkd Hsk Hp. destruct Hp.
+  unfold rf_dir, rf_lost, rf_namelen in *.
+  cbn [rotate rf_max rf_moved rf_gone rf_hist rf_rot rf_cur rf_env fd_at_path e_dir e_lost e_namelen] in *.
+  unfold rf_dir, rf_lost, rf_namelen in *.
   rewrite Em, ?Emv, ?Eg, ?Eh, ?Er, ?Ec in *.
   constructor.
   - exact wp_inv0.
@@ -278,6 +292,7 @@ Proof.
     apply NoDup_snoc; [exact Hn|apply free_k_fresh].
   - unfold rf_dir. rewrite wp_dir0. exact Ed.
   - unfold rf_lost. rewrite wp_lost0. exact El.
+  - unfold rf_namelen. rewrite wp_name0. exact En.
 Qed.
 
 Lemma write_loop_ok clk : forall fuel i st p w,
@@ -285,8 +300,9 @@ Lemma write_loop_ok clk : forall fuel i st p w,
   exists st' hs, write_loop fuel clk i st p w = WOk st' (w + zlen p) /\ write_post clk i st st' p hs.
 Proof.
   induction fuel as [|f IH]; intros i st p w Hinv Hf; [lia|].
-  pose proof Hinv as (Hex & Hpos & Hfd).
-  cbn [write_loop].
+  pose proof Hinv as (Hex & Hpos & Hfd & Hnm).
+  assert (Hop : fd_open st = true) by (unfold fd_open; rewrite Hfd; reflexivity).
+  cbn [write_loop]. rewrite ?Hop, ?(can_rotate_short (clk i) st Hnm). cbn [negb].
   destruct (exceeds p (rf_max st - rf_pos st)) eqn:Hc; rewrite exceeds_spec in Hc.
   2:{ eexists. exists []. split; [reflexivity|]. rewrite (put_eq st p Hfd). apply final_post; [exact Hinv|left; lia]. }
   pose proof (window_scan_spec p (rf_max st - rf_pos st) ltac:(lia)) as Hs.
@@ -304,7 +320,7 @@ Proof.
     exists st'. eexists. split.
     + rewrite Hr. f_equal. unfold zlen. lia.
     + apply (post_cons clk i st (putp st a) st' a [NL] RSplit rest hs p);
-        [reflexivity|reflexivity|reflexivity|reflexivity|reflexivity|reflexivity|reflexivity|reflexivity|exact Hp
+        [reflexivity|reflexivity|reflexivity|reflexivity|reflexivity|reflexivity|reflexivity|reflexivity|reflexivity|exact Hp
         |intros _; left; rewrite zlen_app; lia|intros _; left; reflexivity|auto|auto|exact Hpost].
   - destruct (0 <? rf_pos st) eqn:Ep.
     + (* no newline inside the window, the file is not empty: fresh file, nothing skipped *)
@@ -314,7 +330,7 @@ Proof.
       { unfold measure, st1. cbn [rotate rf_pos]. cbn. lia. }
       exists st'. eexists. split; [exact Hr|].
       pose proof (post_cons clk i st st st' [] [] RFresh p hs p) as PC. rewrite app_nil_r in PC.
-      apply PC; [reflexivity|reflexivity|reflexivity|reflexivity|reflexivity|reflexivity|reflexivity|reflexivity|reflexivity
+      apply PC; [reflexivity|reflexivity|reflexivity|reflexivity|reflexivity|reflexivity|reflexivity|reflexivity|reflexivity|reflexivity
                 |auto|intros Ha; right; split; [reflexivity|exact Ha]|auto|auto|exact Hpost].
     + (* empty file *)
       assert (Hcur : rf_cur st = []) by (apply zlen0_nil; pose proof (zlen_nonneg (rf_cur st)); lia).
@@ -330,7 +346,7 @@ Proof.
         exists st'. eexists. split.
         -- rewrite Hr. f_equal. unfold zlen. lia.
         -- apply (post_cons clk i st (putp st a) st' a [NL] RLong b hs p);
-             [reflexivity|reflexivity|reflexivity|reflexivity|reflexivity|reflexivity|reflexivity|reflexivity|exact Hp
+             [reflexivity|reflexivity|reflexivity|reflexivity|reflexivity|reflexivity|reflexivity|reflexivity|reflexivity|exact Hp
              |intros _; right; rewrite Hcur; exact Hn|intros _; left; reflexivity|auto|auto|exact Hpost].
       * apply split_first_nl_none in Ef.
         eexists. exists []. split; [reflexivity|]. rewrite (put_eq st p Hfd). apply final_post; [exact Hinv|right; auto].
@@ -340,13 +356,13 @@ Definition after_stat (st : rf) : rf := if rf_exists st then st else reopen st.
 
 Lemma after_stat_winv st : rinv st -> winv (after_stat st) /\ rf_cur (after_stat st) = rf_cur st.
 Proof.
-  intros (H1 & H2). unfold after_stat, winv. destruct (rf_exists st) eqn:E.
+  intros (H1 & H2 & H3). unfold after_stat, winv. destruct (rf_exists st) eqn:E.
   - split; [|reflexivity]. rewrite E. destruct (H1 eq_refl). auto.
   - cbn. rewrite (H2 eq_refl). auto.
 Qed.
 
 Lemma winv_rinv st : winv st -> rinv st.
-Proof. intros (H1 & H2 & H3). unfold rinv. rewrite H1. split; auto; discriminate. Qed.
+Proof. intros (H1 & H2 & H3 & H4). unfold rinv. rewrite H1. repeat split; auto; discriminate. Qed.
 
 Lemma after_stat_fields st :
   rf_max (after_stat st) = rf_max st /\ rf_moved (after_stat st) = rf_moved st /\
@@ -418,19 +434,23 @@ Qed.
 Lemma reopen_ginv s st :
   rf_rot st = hist_rot (rf_hist st) -> rf_moved st = hist_moved (rf_hist st) ->
   rf_gone st = hist_gone (rf_hist st) -> NoDup (map fst (rf_rot st)) -> rf_lost st = [] ->
+  rf_namelen st <= 200 ->
   ginv (rf_reopen s st).
 Proof.
-  intros Gr Gm Gg Gn Gl. unfold rf_reopen. cbn [rf_pos rf_max].
+  intros Gr Gm Gg Gn Gl Gk. unfold rf_reopen. cbn [rf_pos rf_max].
   destruct (zlen (rf_cur st) <? rf_max st) eqn:E.
-  - constructor; cbn; auto. unfold rinv; cbn. split; auto; discriminate.
-  - constructor.
-    + unfold rinv; cbn. split; auto; discriminate.
+  - constructor; cbn; auto. unfold rinv; cbn. repeat split; auto; discriminate.
+  - rewrite can_rotate_short by exact Gk. constructor.
+    + unfold rinv; cbn. repeat split; auto; discriminate.
     + cbn [rotate rf_rot rf_hist rf_cur]. unfold hist_rot, hist_files. rewrite filter_app, map_app. cbn. rewrite Gr. reflexivity.
     + cbn [rotate rf_moved rf_hist rf_cur]. unfold hist_moved. rewrite filter_app, map_app. cbn. rewrite app_nil_r. exact Gm.
     + cbn [rotate rf_gone rf_hist rf_cur]. unfold hist_gone. rewrite filter_app, map_app. cbn. rewrite app_nil_r. exact Gg.
     + apply rotate_nodup. exact Gn.
     + cbn. exact Gl.
 Qed.
+
+Lemma ginv_name st : ginv st -> rf_namelen st <= 200.
+Proof. intros G. apply (g_rinv _ G). Qed.
 
 Lemma ginv_reopen s st : ginv st -> ginv (rf_reopen s st).
 Proof. intros G. apply reopen_ginv; apply G. Qed.
@@ -442,7 +462,7 @@ Lemma ginv_remove st : ginv st -> ginv (ext_remove st).
 Proof.
   intros G. unfold ext_remove. destruct (rf_dir st && rf_exists st) eqn:E; [|exact G].
   constructor; cbn [rf_rot rf_moved rf_gone rf_hist]; try apply G.
-  - unfold rinv; cbn. split; auto; discriminate.
+  - pose proof (ginv_name st G). unfold rinv; cbn. repeat split; auto; discriminate.
   - unfold hist_rot. rewrite filter_app. cbn. rewrite app_nil_r. apply G.
   - unfold hist_moved. rewrite filter_app. cbn. rewrite app_nil_r. apply G.
   - unfold hist_gone. rewrite filter_app, map_app. cbn. f_equal. apply G.
@@ -452,7 +472,7 @@ Lemma ginv_move st : ginv st -> ginv (ext_move st).
 Proof.
   intros G. unfold ext_move. destruct (rf_dir st && rf_exists st) eqn:E; [|exact G].
   constructor; cbn [rf_rot rf_moved rf_gone rf_hist]; try apply G.
-  - unfold rinv; cbn. split; auto; discriminate.
+  - pose proof (ginv_name st G). unfold rinv; cbn. repeat split; auto; discriminate.
   - unfold hist_rot. rewrite filter_app. cbn. rewrite app_nil_r. apply G.
   - unfold hist_moved. rewrite filter_app, map_app. cbn. f_equal. apply G.
   - unfold hist_gone. rewrite filter_app. cbn. rewrite app_nil_r. apply G.
@@ -463,8 +483,11 @@ Proof.
   intros G. constructor; apply G.
 Qed.
 
+Lemma ginv_open_env n max s init : n <= 200 -> ginv (rf_open_env n max s init).
+Proof. intros Hn. unfold rf_open_env. apply reopen_ginv; cbn; auto. constructor. Qed.
+
 Lemma ginv_open max s init : ginv (rf_open max s init).
-Proof. unfold rf_open. apply reopen_ginv; cbn; auto. constructor. Qed.
+Proof. apply ginv_open_env. lia. Qed.
 
 (* what each Write returns: len p while the destination is reachable, an error otherwise *)
 Fixpoint written_lens (d : bool) (ops : list op) : list (option Z) :=
@@ -481,7 +504,7 @@ Proof. unfold ext_remove. destruct (rf_dir st && rf_exists st); reflexivity. Qed
 Lemma dir_move st : rf_dir (ext_move st) = rf_dir st.
 Proof. unfold ext_move. destruct (rf_dir st && rf_exists st); reflexivity. Qed.
 Lemma dir_reopen s st : rf_dir (rf_reopen s st) = rf_dir st.
-Proof. unfold rf_reopen. cbn [rf_pos rf_max]. destruct (_ <? _); reflexivity. Qed.
+Proof. unfold rf_reopen. cbn [rf_pos rf_max]. destruct (_ <? _); [|destruct (can_rotate _ _)]; reflexivity. Qed.
 Lemma dir_restart s st : rf_dir (ext_restart s st) = rf_dir st.
 Proof. unfold ext_restart. destruct (rf_dir st) eqn:E; [rewrite dir_reopen|]; exact E. Qed.
 
@@ -687,7 +710,8 @@ Qed.
 
 Lemma stream_reopen s st : stream_of (rf_reopen s st) = stream_of st.
 Proof.
-  unfold rf_reopen, stream_of. cbn [rf_pos rf_max]. destruct (_ <? _); cbn [rf_hist rf_cur rotate]; [reflexivity|].
+  unfold rf_reopen, stream_of. cbn [rf_pos rf_max]. destruct (_ <? _); [reflexivity|].
+  destruct (can_rotate _ _); [|reflexivity]. cbn [rf_hist rf_cur rotate].
   rewrite hist_stream_app. unfold hist_stream at 2. cbn. rewrite !app_nil_r. reflexivity.
 Qed.
 
@@ -714,12 +738,11 @@ Qed.
 
 Lemma open_stream max s init : stream_of (rf_open max s init) = init.
 Proof.
-  unfold stream_of, rf_open, rf_reopen. cbn [rf_pos rf_max rf_cur]. destruct (_ <? _); cbn; [auto|].
-  unfold hist_stream; cbn. rewrite !app_nil_r. auto.
+  unfold rf_open, rf_open_env. rewrite stream_reopen. unfold stream_of, hist_stream. reflexivity.
 Qed.
 
 Lemma open_dir max s init : rf_dir (rf_open max s init) = true.
-Proof. unfold rf_open. rewrite dir_reopen. reflexivity. Qed.
+Proof. unfold rf_open, rf_open_env. rewrite dir_reopen. reflexivity. Qed.
 
 Lemma bytes_accounted max s init ops st rets :
   run (rf_open max s init) [] ops = Some (st, rets) ->
@@ -735,6 +758,7 @@ Definition fine_state (st : rf) : Prop := aligned (rf_cur st) /\ Forall ent_fine
 Lemma fine_reopen s st : fine_state st -> fine_state (rf_reopen s st).
 Proof.
   intros [Ha Hf]. unfold rf_reopen, fine_state. cbn [rf_pos rf_max]. destruct (_ <? _); cbn; [auto|].
+  destruct (can_rotate _ _); cbn; [|auto].
   split; [apply aligned_nil|]. apply Forall_app. split; [exact Hf|]. constructor; [right; auto|constructor].
 Qed.
 
@@ -809,6 +833,7 @@ Proof.
   - intros st G (Hm & Hc & Hh). unfold ext_move, fits_state. destruct (rf_dir st && rf_exists st); cbn; [|auto].
     split; [exact Hm|]. split; [apply fits_nil|]. apply Forall_app. split; [exact Hh|]. constructor; [exact Hc|constructor].
   - intros s st G (Hm & Hc & Hh). unfold rf_reopen, fits_state. cbn [rf_pos rf_max]. destruct (_ <? _); cbn; [auto|].
+    destruct (can_rotate _ _); cbn; [|auto].
     split; [exact Hm|]. split; [apply fits_nil|]. apply Forall_app. split; [exact Hh|]. constructor; [exact Hc|constructor].
   - intros b st _ F. exact F.
 Qed.
@@ -831,7 +856,7 @@ Proof.
   destruct (run_total ops _ [] (ginv_open max s init)) as (st' & Hrun & G).
   rewrite H in Hrun. inversion Hrun; subst st'. clear Hrun.
   assert (F0 : fits_state max (rf_open max s init)).
-  { unfold rf_open, rf_reopen, fits_state. cbn [rf_pos rf_max rf_cur]. destruct (_ <? _); cbn; [auto|].
+  { unfold rf_open, rf_open_env, rf_reopen, fits_state. cbn [rf_pos rf_max rf_cur]. destruct (_ <? _); cbn; [auto|].
     split; [reflexivity|]. split; [apply fits_nil|]. constructor; [exact Hi|constructor]. }
   destruct (run_fits max ops _ _ _ _ (writes_all_true ops _) (ginv_open max s init) F0 H) as (_ & Fc & Fh).
   rewrite Forall_forall in Fh.
@@ -894,6 +919,62 @@ Proof.
   - rewrite Eg in Hg. unfold hist_gone in Hg. apply map_eq_nil in Hg. exact Hg.
 Qed.
 
+(* ---- Write always returns: no panic, no endless loop - for EVERY state and environment
+   (whatever the descriptor refers to, whether or not rotated names can be created) ---- *)
+Lemma write_loop_returns clk : forall fuel i st p w,
+  (measure st p < fuel)%nat ->
+  (exists st' n, write_loop fuel clk i st p w = WOk st' n) \/ (exists st', write_loop fuel clk i st p w = WErr st').
+Proof.
+  induction fuel as [|f IH]; intros i st p w Hf; [lia|]. cbn [write_loop].
+  assert (Hfin : (exists st' n, (if fd_open st then WOk (set_pos (put st p) (rf_pos st + zlen p)) (w + zlen p) else WErr st) = WOk st' n) \/
+                 (exists st', (if fd_open st then WOk (set_pos (put st p) (rf_pos st + zlen p)) (w + zlen p) else WErr st) = WErr st'))
+    by (destruct (fd_open st); eauto).
+  destruct (exceeds p (rf_max st - rf_pos st)) eqn:Hc; [|exact Hfin]. rewrite exceeds_spec in Hc.
+  pose proof (window_scan_spec p (rf_max st - rf_pos st) ltac:(lia)) as Hs.
+  unfold measure in Hf.
+  destruct (window_scan p (rf_max st - rf_pos st)) as [a rest| |]; [| |contradiction].
+  - destruct Hs as (Hp & _ & _).
+    assert (Hlen : length p = (length a + 1 + length rest)%nat) by (rewrite Hp, app_length; cbn [length]; lia).
+    destruct (negb (fd_open st)); [right; eauto|]. destruct (can_rotate (clk i) st); [|right; eauto].
+    apply IH. unfold measure. cbn [rotate rf_pos]. cbn. lia.
+  - destruct (0 <? rf_pos st) eqn:Ep.
+    + destruct (can_rotate (clk i) st); [|right; eauto]. apply IH. unfold measure. cbn [rotate rf_pos]. cbn. lia.
+    + destruct (split_first_nl p) as [[a b]|] eqn:Ef; [|exact Hfin].
+      apply split_first_nl_some in Ef as [Hp _].
+      assert (Hlen : length p = (length a + 1 + length b)%nat) by (rewrite Hp, app_length; cbn [length]; lia).
+      destruct (negb (fd_open st)); [right; eauto|]. destruct (can_rotate (clk i) st); [|right; eauto].
+      apply IH. unfold measure. cbn [rotate rf_pos]. cbn. lia.
+Qed.
+
+Lemma rf_write_returns clk st p :
+  (exists st' n, rf_write clk st p = WOk st' n) \/ (exists st', rf_write clk st p = WErr st').
+Proof.
+  unfold rf_write. destruct (rf_dir st); [|right; eauto].
+  apply write_loop_returns. unfold measure. destruct (0 <? _); lia.
+Qed.
+
+Lemma run_returns : forall ops st rets, exists st' rets', run st rets ops = Some (st', rets').
+Proof.
+  induction ops as [|o r IH]; intros st rets; cbn [run]; [eauto|].
+  destruct o; try apply IH.
+  destruct (rf_write_returns clk st p) as [(st' & n & ->)|(st' & ->)]; apply IH.
+Qed.
+
+Lemma wl_run_returns : forall es w, exists w', wl_run w es = Some w'.
+Proof.
+  assert (Hfl : forall s w0, exists w1, wl_flush s w0 = Some w1).
+  { intros s w0. unfold wl_flush. destruct (wl_buf w0) as [|l ls]; [eauto|].
+    destruct (rf_write_returns (fun i => s (length (rf_rot (wl_rf w0)) + i)%nat) (wl_rf w0) (concat (l :: ls)))
+      as [(st' & n & ->)|(st' & ->)]; eauto. }
+  induction es as [|e es IH]; intros w; cbn [wl_run]; [eauto|].
+  unfold wl_step. destruct e as [s line| |s|s f].
+  - cbn zeta. destruct (_ <? FLUSH_BYTES); [apply IH|].
+    destruct (Hfl s (mkWL (wl_rf w) (wl_buf w ++ [line]) (wl_len w + zlen line))) as (w1 & ->). apply IH.
+  - apply IH.
+  - destruct (Hfl s w) as (w1 & ->). apply IH.
+  - destruct (Hfl s w) as (w1 & ->). apply IH.
+Qed.
+
 (* ---- the channel ---- *)
 Definition send_ok (e : wev) : Prop := match e with ESend _ l => aligned l | _ => True end.
 
@@ -918,7 +999,7 @@ Proof.
   - exists w. split; [reflexivity|]. split; [|split; [exact Eb|reflexivity]].
     constructor; auto; rewrite Eb; assumption.
   - destruct (rf_dir (wl_rf w)) eqn:Hd.
-    + destruct (ginv_write (fun i => clk (length (rf_hist (wl_rf w)) + i)%nat) (wl_rf w) (concat (l :: ls)) G Hd)
+    + destruct (ginv_write (fun i => clk (length (rf_rot (wl_rf w)) + i)%nat) (wl_rf w) (concat (l :: ls)) G Hd)
         as (st' & hs & Hr & G' & Hd' & Hp).
       rewrite Hr. eexists. split; [reflexivity|]. cbn [wl_rf wl_buf]. split; [|auto].
       constructor; cbn [wl_rf wl_buf]; auto.
@@ -982,37 +1063,33 @@ Proof.
     rewrite wl_accepted_cons, app_assoc, <- Hd. exact I'.
 Qed.
 
-Lemma wl_run_total : forall es w, ginv (wl_rf w) -> exists w', wl_run w es = Some w'.
+Lemma open_fails_short n max s init : n <= 240 -> open_fails n max s init = false.
+Proof. intros H. unfold open_fails. replace (n + 15 <=? 255) with true by lia. apply andb_false_r. Qed.
+
+(* New hands out a channel exactly when max >= 1024 and the destination can be opened (for an
+   over-long file name: and the file found there need not be rotated at once); on a channel handed
+   out every Send returns - whatever is sent (encodable or not), whatever happens to the destination,
+   whether or not rotated names can be created *)
+Lemma new_spec_env n max openable s init :
+  match wl_new_env n max openable s init with
+  | Some w => 1024 <= max /\ openable = true /\ forall es, exists w', wl_run w es = Some w'
+  | None => max < 1024 \/ openable = false \/ open_fails n max s init = true
+  end.
 Proof.
-  induction es as [|e es IH]; intros w G; cbn [wl_run]; [eauto|].
-  assert (Hfl : forall s w0, ginv (wl_rf w0) -> exists w1, wl_flush s w0 = Some w1 /\ ginv (wl_rf w1)).
-  { intros s w0 G0. unfold wl_flush. destruct (wl_buf w0) as [|l ls] eqn:Eb; [eauto|].
-    destruct (rf_dir (wl_rf w0)) eqn:Hd.
-    - destruct (ginv_write (fun i => s (length (rf_hist (wl_rf w0)) + i)%nat) (wl_rf w0) (concat (l :: ls)) G0 Hd) as (st' & hs & Hr & G' & _).
-      rewrite Hr. eexists. split; [reflexivity|]. exact G'.
-    - rewrite (rf_write_err _ _ _ Hd). eexists. split; [reflexivity|]. exact G0. }
-  unfold wl_step. destruct e as [s line| |s|s f].
-  - cbn zeta. destruct (_ <? FLUSH_BYTES).
-    + apply IH. exact G.
-    + destruct (Hfl s (mkWL (wl_rf w) (wl_buf w ++ [line]) (wl_len w + zlen line)) G) as (w1 & -> & G1). apply IH, G1.
-  - apply IH, G.
-  - destruct (Hfl s w G) as (w1 & -> & G1). apply IH, G1.
-  - destruct (Hfl s w G) as (w1 & -> & G1). apply IH. cbn [wl_rf].
-    destruct f; cbn [apply_fault]; [apply ginv_remove|apply ginv_move|apply ginv_dir|apply ginv_dir]; exact G1.
+  unfold wl_new_env. destruct (max <? 1024) eqn:E; [left; lia|]. destruct openable; cbn [andb]; [|auto].
+  destruct (open_fails n max s init); cbn [negb]; [auto|].
+  split; [lia|]. split; [reflexivity|]. intros es. apply wl_run_returns.
 Qed.
 
-(* New hands out a channel exactly when max >= 1024 and the destination can be opened; on a
-   channel handed out every Send returns - whatever is sent (encodable or not) and whatever
-   happens to the destination *)
 Lemma new_spec max openable s init :
   match wl_new max openable s init with
   | Some w => 1024 <= max /\ openable = true /\ forall es, exists w', wl_run w es = Some w'
   | None => max < 1024 \/ openable = false
   end.
 Proof.
-  unfold wl_new. destruct (max <? 1024) eqn:E; [left; lia|]. destruct openable; [|right; reflexivity].
-  split; [lia|]. split; [reflexivity|]. intros es.
-  apply (wl_run_total es (mkWL (rf_open max s init) [] 0)). apply ginv_open.
+  pose proof (new_spec_env 3 max openable s init) as H. unfold wl_new.
+  destruct (wl_new_env 3 max openable s init); [exact H|].
+  rewrite open_fails_short in H by lia. destruct H as [H|[H|H]]; auto. discriminate.
 Qed.
 
 Lemma wl_run_app es1 : forall es2 w, wl_run w (es1 ++ es2) =
@@ -1048,7 +1125,9 @@ Lemma channel_lines max s init es clk w w' :
   hist_lines (rf_hist (wl_rf w')) ++ lines_of (rf_cur (wl_rf w')) = lines_of (init ++ wl_accepted true es) /\
   wl_buf w' = [] /\ rf_lost (wl_rf w') = [].
 Proof.
-  intros Hn Hi Hs Hb Hr. unfold wl_new in Hn. destruct (max <? 1024); [discriminate|]. inversion Hn; subst w. clear Hn.
+  intros Hn Hi Hs Hb Hr. unfold wl_new, wl_new_env in Hn. destruct (max <? 1024); [discriminate|].
+  rewrite open_fails_short in Hn by lia. cbn in Hn. inversion Hn; subst w. clear Hn.
+  fold (rf_open max s init) in *.
   set (w0 := mkWL (rf_open max s init) [] 0) in *.
   assert (I0 : winvc init w0 []).
   { constructor; cbn [w0 wl_rf wl_buf].
